@@ -67,6 +67,8 @@ pub struct FileCase {
     pub relative: bool,
     pub with_library: bool,
     pub displays_before_fault: usize,
+    /// per form: 0 = nothing, 1 = a comment line before it, 2 = a comment at the end of its last line, 3 = both
+    pub comments: Vec<u8>,
 }
 
 pub fn gen_case(ch: &mut Chooser) -> FileCase {
@@ -99,7 +101,25 @@ pub fn gen_case(ch: &mut Chooser) -> FileCase {
     }
     let mut fault_index = None;
     let mut displays_before_fault = 0;
-    if ch.chance(1, 2) {
+    let fault_roll = ch.below(8);
+    if fault_roll == 0 {
+        // a form that is not well-formed text: everything before it has run and displayed, nothing after it does
+        let (raw, last_only) = *ch.pick(&[
+            (")", false),
+            ("(if)", false),
+            ("#;", false),
+            ("12abc", false),
+            ("(display 1/0)", false),
+            ("(lambda)", false),
+            ("(display #|x|# 1)", false),
+            ("(display (car '(1 2))", true),
+            ("(display \"never closed)", true),
+        ]);
+        let pos = if last_only { body.len() } else { ch.below(body.len() + 1) };
+        displays_before_fault = body[..pos].iter().filter(|f| render_form(f).starts_with("(display")).count();
+        body.insert(pos, Form::Raw(raw.to_string()));
+        fault_index = Some(forms.len() + pos);
+    } else if fault_roll <= 4 {
         let kind = *ch.pick(&KINDS);
         let context = *ch.pick(&CONTEXTS);
         let derived = ch.chance(1, 2);
@@ -111,7 +131,9 @@ pub fn gen_case(ch: &mut Chooser) -> FileCase {
         fault_index = Some(forms.len() + pos);
     }
     forms.extend(body);
-    FileCase { forms, fault_index, crlf: ch.chance(1, 4), final_newline: ch.chance(2, 3), relative: ch.chance(1, 2), with_library, displays_before_fault }
+    let with_comments = ch.chance(1, 2);
+    let comments: Vec<u8> = (0..forms.len()).map(|_| if with_comments && ch.chance(1, 3) { 1 + ch.below(3) as u8 } else { 0 }).collect();
+    FileCase { comments, forms, fault_index, crlf: ch.chance(1, 4), final_newline: ch.chance(2, 3), relative: ch.chance(1, 2), with_library, displays_before_fault }
 }
 
 static DIRS: AtomicU64 = AtomicU64::new(0);
@@ -187,9 +209,12 @@ pub fn run_binary(args: &[&str], cwd: &std::path::Path, stdin: Option<&str>) -> 
     }
     let out = child.wait_with_output().unwrap();
     done.store(true, Ordering::SeqCst);
-    let mut stderr = String::from_utf8_lossy(&out.stderr).to_string();
+    let stderr = String::from_utf8_lossy(&out.stderr).to_string();
     if killed.load(Ordering::SeqCst) {
-        stderr.push_str("\n[rv] killed by the watchdog after 120 s");
+        // a wall-clock limit is not a correctness signal: inconclusive
+        eprintln!("[rv] the interpreter binary did not finish within 120 s of wall clock (killed): inconclusive");
+        let _ = stderr;
+        std::process::exit(2);
     }
     RunResult { stdout: String::from_utf8_lossy(&out.stdout).to_string(), stderr, code: out.status.code() }
 }
@@ -212,6 +237,9 @@ fn model_run(c: &FileCase) -> (String, Option<(usize, RErr)>, bool) {
         },
     );
     for (i, f) in c.forms.iter().enumerate() {
+        if let Form::Raw(_) = f {
+            return (m.output.clone(), Some((i, RErr::Syntax)), false);
+        }
         match m.eval_form(f) {
             Ok(_) => {}
             Err(RErr::OutOfClass(_)) | Err(RErr::Fuel) => return (m.output.clone(), None, true),
@@ -223,7 +251,25 @@ fn model_run(c: &FileCase) -> (String, Option<(usize, RErr)>, bool) {
 
 pub fn judge(c: &FileCase) -> Report {
     let nl = if c.crlf { "\r\n" } else { "\n" };
-    let lines: Vec<String> = c.forms.iter().map(render_form).collect();
+    // one form per line (a form with a raw multi-line string takes several), comments in between
+    let mut lines: Vec<String> = vec![];
+    let mut extents: Vec<(u32, u32)> = vec![];
+    let mut line_no = 1u32;
+    for (i, f) in c.forms.iter().enumerate() {
+        let k = if matches!(f, Form::Raw(_)) { 0 } else { c.comments.get(i).copied().unwrap_or(0) };
+        if k & 1 != 0 {
+            lines.push(format!("; note {} ( about \" the next form", i));
+            line_no += 1;
+        }
+        let mut t = render_form(f);
+        let span = t.matches('\n').count() as u32;
+        if k & 2 != 0 {
+            t.push_str(" ; trailing ) comment");
+        }
+        extents.push((line_no, line_no + span));
+        line_no += span + 1;
+        lines.push(t);
+    }
     let mut text = lines.join(nl);
     if c.final_newline {
         text.push_str(nl);
@@ -231,6 +277,9 @@ pub fn judge(c: &FileCase) -> Report {
     let mut rep = Report::new(format!("{}{}{}", if c.crlf { ";; CRLF\n" } else { "" }, if c.final_newline { "" } else { ";; no final newline\n" }, lines.join("\n")));
     rep.label(if c.crlf { "crlf" } else { "lf" });
     rep.label(if c.relative { "relative-path" } else { "absolute-path" });
+    if c.comments.iter().any(|k| *k != 0) {
+        rep.label("with-comments");
+    }
     if c.with_library {
         rep.label("imports-own-library");
     }
@@ -308,6 +357,16 @@ pub fn judge(c: &FileCase) -> Report {
             }
             let rest = &line[arg.len()..];
             let (loc, msg) = parse_loc(rest);
+            let truncated_at_end = matches!(&c.forms[*i], Form::Raw(t) if t.matches('(').count() > t.matches(')').count() || t.matches('"').count() % 2 == 1);
+            if let (Some(l), Some((first, last)), false) = (loc, extents.get(*i), truncated_at_end) {
+                if l[0] < *first || l[0] > *last {
+                    rep.fail(
+                        "diagnostic-line-outside-failing-form",
+                        format!("diagnostic {:?}: the failing form (number {}) occupies lines {}-{} of the file", line, i, first, last),
+                    );
+                    return rep;
+                }
+            }
             if loc != ei.loc {
                 rep.fail("diagnostic-location-differs", format!("diagnostic {:?}: location {:?}, library interface reports {:?}", line, loc, ei.loc));
                 return rep;
@@ -387,16 +446,18 @@ pub fn run(ctx: &Ctx) {
     ctx.set_rule(
         "program files: (import (scheme base) (scheme write)) followed by displaying forms (integers, strings, symbols, \
          booleans, characters, lists and vectors of them, newline), definitions and computations from the program \
-         generators and, in half of the cases, one injected fault (8 kinds x 5 contexts) at a random position; written with \
-         LF or CRLF line ends, with or without final newline; run by the built binary from a different working directory \
+         generators and, in five eighths of the cases, one injected fault at a random position (8 run-time kinds x 5 contexts, or a \
+         form that is not well-formed text: stray parenthesis, (if), unsupported token, malformed number, block comment, \
+         unterminated list or string at the end); written with \
+         LF or CRLF line ends, with or without final newline, half of them with comment lines and trailing comments; run by the built binary from a different working directory \
          with an absolute or a relative path; a fifth of the programs import a library of their own next to the program \
          (with a decoy of the same name in the working directory); plus missing file, directory, non-UTF-8 file, empty file. \
          Oracle: stdout equals the reference evaluator's output up to the first failing form; exit status 0 iff no form \
          fails; on failure exactly one diagnostic line FILE[:LINE:COL] MESSAGE whose location and message equal those of \
-         in-process evaluation of the same text. Non-trivial = >= 2 display calls before a fault that is not in the last form.",
+         in-process evaluation of the same text and whose LINE lies within the lines the failing form occupies in the file. Non-trivial = >= 2 display calls before a fault that is not in the last form.",
     );
     ctx.assume("the binary is built by ./check from /repo's working tree into /verif/harness/target/sut");
     nonfile_cases(ctx);
-    let cases = ctx.tier.pick(1_500, 12_000);
+    let cases = ctx.tier.pick(4_000, 20_000);
     ctx.random("program-files", cases, 500, |ch| judge(&gen_case(ch)));
 }
